@@ -33,6 +33,7 @@ func checkC11(c *Ctx, r *Report) {
 	r.rule("C11.R2b", "every insertion into the subscriber pool is dominated by the imsi- prefix test on the key", 1)
 	r.rule("C11.R3", "no explicit abort (panic, Fatal, os.Exit) reachable from a route handler", 1)
 	r.rule("C11.R4", "no wedge: Lock is followed by defer Unlock before anything that may panic, or the critical section cannot panic", 4)
+	r.rule("C11.R6", "every assignment to a map entry on the request path is into a map that some function of the module makes", 3)
 	r.rule("C11.R5", "every problem status built in the API/processor is a 4xx constant", 8)
 
 	entries := httpEntries(c)
@@ -131,6 +132,126 @@ func checkC11(c *Ctx, r *Report) {
 
 	// ---- R5
 	checkProblemStatuses(c, r, "C11.R5")
+
+	// ---- R6
+	checkMapWrites(c, r, reached, pred, "C11.R6")
+}
+
+// checkMapWrites: an assignment to an entry of a nil map panics (reading one
+// does not).  For every map assignment on the request path whose map is a
+// member of a state object or a package variable, some function of the module
+// must store a made map (make / composite literal) into that member; a
+// member that is only ever read, or only ever set to nil, is nil whenever the
+// assignment runs.
+func checkMapWrites(c *Ctx, r *Report, reached map[*ssa.Function]bool, pred map[*ssa.Function]*ssa.Function, rule string) {
+	type slot struct {
+		owner *types.Named
+		field int
+		glob  *ssa.Global
+	}
+	made := map[slot]string{}
+	slotOfAddr := func(addr ssa.Value) (slot, string, bool) {
+		switch a := addr.(type) {
+		case *ssa.FieldAddr:
+			t := a.X.Type()
+			if p, ok := t.Underlying().(*types.Pointer); ok {
+				t = p.Elem()
+			}
+			if n, ok := t.(*types.Named); ok {
+				return slot{owner: n, field: a.Field}, n.Obj().Name() + "." + fieldName(a), true
+			}
+		case *ssa.Global:
+			return slot{glob: a}, a.Name(), true
+		}
+		return slot{}, "", false
+	}
+	var nonNilMap func(v ssa.Value, depth int) bool
+	nonNilMap = func(v ssa.Value, depth int) bool {
+		if depth > 6 {
+			return false
+		}
+		switch x := v.(type) {
+		case *ssa.MakeMap:
+			return true
+		case *ssa.ChangeType:
+			return nonNilMap(x.X, depth+1)
+		case *ssa.Phi:
+			for _, e := range x.Edges {
+				if !nonNilMap(e, depth+1) {
+					return false
+				}
+			}
+			return len(x.Edges) > 0
+		case *ssa.Const:
+			return false
+		case *ssa.Call, *ssa.Parameter, *ssa.UnOp, *ssa.Extract, *ssa.Lookup, *ssa.TypeAssert:
+			return true // handed in from elsewhere: not known to be nil
+		}
+		return false
+	}
+	all := append([]*ssa.Function{}, c.ModFuncs...)
+	for _, p := range c.Prog.AllPackages() {
+		if p.Pkg != nil && strings.HasPrefix(p.Pkg.Path(), modPath) {
+			if init := p.Func("init"); init != nil {
+				all = append(all, init)
+			}
+		}
+	}
+	for _, f := range all {
+		eachInstr(f, func(_ *ssa.BasicBlock, _ int, ins ssa.Instruction) {
+			st, ok := ins.(*ssa.Store)
+			if !ok {
+				return
+			}
+			if _, isMap := st.Val.Type().Underlying().(*types.Map); !isMap {
+				return
+			}
+			if sl, _, ok := slotOfAddr(st.Addr); ok && nonNilMap(st.Val, 0) {
+				if _, dup := made[sl]; !dup {
+					made[sl] = posOf(c, st)
+				}
+			}
+		})
+	}
+	n := 0
+	for _, f := range c.ModFuncs {
+		if !reached[f] {
+			continue
+		}
+		idx := map[string]int{}
+		eachInstr(f, func(_ *ssa.BasicBlock, _ int, ins ssa.Instruction) {
+			mu, ok := ins.(*ssa.MapUpdate)
+			if !ok {
+				return
+			}
+			m := mu.Map
+			if ct, ok := m.(*ssa.ChangeType); ok {
+				m = ct.X
+			}
+			if k, ok := m.(*ssa.Const); ok && k.Value == nil {
+				n++
+				r.viol(rule, fmt.Sprintf("%s|nil map literal#%d", fnKey(f), n), posOf(c, mu), "assignment to an entry of a map that is the nil constant: panics (path "+pathTo(pred, f)+")")
+				return
+			}
+			ld, ok := m.(*ssa.UnOp)
+			if !ok || ld.Op != token.MUL {
+				return
+			}
+			sl, name, ok := slotOfAddr(ld.X)
+			if !ok {
+				return
+			}
+			n++
+			idx[name]++
+			key := fmt.Sprintf("%s|%s#%d", fnKey(f), name, idx[name])
+			if at, ok := made[sl]; ok {
+				r.proven(rule, key, posOf(c, mu), "the map is made at "+at)
+			} else {
+				r.viol(rule, key, posOf(c, mu), "assignment to an entry of "+name+", a map that no function of the module ever makes (it is only read elsewhere, which is legal on a nil map): the assignment panics with \"assignment to entry in nil map\" whenever this branch runs, gin turns that into a 500 (path "+pathTo(pred, f)+")")
+			}
+		})
+	}
+	r.count("map_assignments_on_request_path", n)
 }
 
 // ---------------------------------------------------------------------------
